@@ -559,8 +559,13 @@ def stream_buffer(ck):
         if isinstance(st, ast.Assign) and q.dotted(st.value) == "self._first_pos" and isinstance(st.targets[0], ast.Name):
             pv = st.targets[0].id
     if not pv:
-        ck.ob("C12.buffer-pos", pk, pk.node, False, "peek starts at _first_pos (bytes already sent are not offered again)", construct="peek reads _first_pos")
-        return
+        if any(q.dotted(x) == "self._first_pos" for x in q.walk_body(pk.node)):
+            pv = "self._first_pos"  # read directly in the slices
+        elif any(isinstance(c_, ast.Call) and q.receiver(c_) == "self" for c_ in q.calls(pk.node)):
+            raise AnalysisError("peek does not read _first_pos itself but calls a helper that may")
+        else:
+            ck.ob("C12.buffer-pos", pk, pk.node, False, "peek starts at _first_pos (bytes already sent are not offered again)", construct="peek reads _first_pos")
+            return
     psize = _params(pk)[0]
     n_r = 0
     for r in [x for x in q.walk_body(pk.node) if isinstance(x, ast.Return)]:
